@@ -24,8 +24,8 @@ import struct, array, sys, re, math, itertools
 GEN_CHANGED = extract_C18.write(extract_C18.GEN_DIR, extract_C18.extract(REPO))
 
 FUNCTIONAL = True
-LEVEL_TEXT = ("Lean theorems: the struct tables re-extracted from the working tree on every run (REPLACEMENTS_BE/LE/NE, PACK_CODE_SIZE, the regex alphabets, the graph of parse_single_struct_token, byteorder and the *ne aliases) equal structSpec, written from the struct documentation (standard sizes, signedness by case, byte order by prefix), for all 4 prefixes x 13 codes; the code's pack over any expanded struct format equals the concatenation of int.to_bytes of each value (base-256 digits) and unpack inverts it, for all values and all format lengths; for every whole-byte bit string the little-endian readings equal the big-endian readings of the byte-reversed bits and int.from_bytes, the native readings are sys.byteorder's; the transcribed byteswap loop equals the byte-group reversal spec for every pattern list, window and repeat setting in the valid region, converts between the two encodings and is an involution; Array.extend accepts an array.array typecode iff the Array's dtype is the native dtype struct assigns to that code, and then reads back the same values when the platform item size is the standard one. Correspondence: 13 codes x 4 prefixes x counts 1..3 x limit values, multi-code formats, 1..8-byte contents, byteswap patterns/windows, every array typecode x dtype, against struct/array live.")
-LEVEL_NOTE = ("Trusted: Lean kernel (+propext, Classical.choice, Quot.sound); the extractor reads the tables it claims to read; struct.pack/unpack of one float (pattern bytes in the given order), bitarray tobytes/frombytes/int2ba/ba2int and slice assignment are modelled by their documented meaning; floats are carried as bit patterns (float64->16/32 rounding is C02's); the hand transcription is tied to the code by the differential run only. Two known findings: '@' is treated as '=' (documented by bitstring, differs from struct's native sizes/alignment), and Array.extend ignores array.array's itemsize (typecodes l/L are 8 bytes on this platform).")
+LEVEL_TEXT = ("Lean theorems: the struct tables re-extracted from the working tree on every run (REPLACEMENTS_BE/LE/NE, PACK_CODE_SIZE, the regex alphabets, the graph of parse_single_struct_token, byteorder and the *ne aliases) equal structSpec, written from the struct documentation (standard sizes, signedness by case, byte order by prefix), for all 4 prefixes x 13 codes; the code's pack over any expanded struct format equals the concatenation of int.to_bytes of each value (base-256 digits) and unpack inverts it, for all values and all format lengths; for every whole-byte bit string the little-endian readings equal the big-endian readings of the byte-reversed bits and int.from_bytes, the native readings are sys.byteorder's; the transcribed byteswap loop equals the byte-group reversal spec for every pattern list, window and repeat setting, converts between the two encodings and is an involution; Array.extend accepts an array.array typecode iff the Array's dtype is the dtype of that code's native layout with the array's own item size, and then reads back the same values. Correspondence: 13 codes x 4 prefixes x counts 1..3 x limit values, multi-code formats, 1..8-byte contents, byteswap patterns/windows, every array typecode x dtype, against struct/array live.")
+LEVEL_NOTE = ("Trusted: Lean kernel (+propext, Classical.choice, Quot.sound); the extractor reads the tables it claims to read; struct.pack/unpack of one float (pattern bytes in the given order), bitarray tobytes/frombytes/int2ba/ba2int and slice assignment are modelled by their documented meaning; floats are carried as bit patterns (float64->16/32 rounding is C02's); the hand transcription is tied to the code by the differential run only. One known finding: '@' is treated as '=' (documented by bitstring, differs from struct's native sizes/alignment where the platform's native size or alignment is not the standard one).")
 TECHNIQUE = "Lean 4 proof (decide over regenerated tables; induction over formats, byte lists and the byteswap loop) + differential correspondence against struct/array"
 TRUSTED = ["harness/extract_C18.py reads REPLACEMENTS_*/PACK_CODE_SIZE/byteorder/regex alphabets from the working tree",
            "CPython struct / array / int.to_bytes are the reference for byte layouts (oracle) and are modelled by their documented meaning"]
@@ -242,8 +242,7 @@ def execute(line: str):
             "token": any_err(lambda: Bits(f"{name}{n}={v!r}"), wire) if kind != "f" else None,
             "build": any_err(lambda: bitstring.Dtype(name, n).build(v), wire),
         }
-        if n > 0 and (n % 8 == 0 or name in ("uint", "int")):  # (the setter on a non-whole-byte BitArray is outside the property)
-            extra["routes"]["setter"] = any_err(setter, wire)
+        extra["routes"]["setter"] = any_err(setter, wire)
         if out.startswith("ok"):
             a = BitArray(**{name: v}, length=n)
             extra["readback"] = any_err(lambda: getattr(a, name), lambda x: canon(x, n // 8))
@@ -623,7 +622,7 @@ def oracle(line: str, out: str, extra: dict):
         canonical = match and (len(dt) == 2 or re.fullmatch(r"u?int8", dt) is not None
                                or (isz > 1 and re.search(r"(be|le|ne)\d", dt) is not None))
         if out == "err":
-            if canonical and STD[tc][1] == isz:
+            if canonical:
                 return (f"Array({dt!r}).extend(array.array({tc!r}, …)) raised although item kind, width ({isz} bytes) "
                         f"and byte order match")
             return None
@@ -658,13 +657,7 @@ def _at_region(line):
     return False
 
 
-def _itemsize_region(line):
-    """array.array typecode whose platform item size is not the standard size of the struct code (l, L on LP64)."""
-    f = line.split(SEP)
-    return f[1] == "aext" and f[4] in STD and int(f[5]) != STD[f[4]][1]
-
-
-REGIONS = {"native_at_prefix_platform_sizes": _at_region, "array_typecode_platform_itemsize": _itemsize_region}
+REGIONS = {"native_at_prefix_platform_sizes": _at_region}
 
 
 def compare(out, model_out, line):
@@ -892,30 +885,6 @@ def _window(rng, n):
     return a, b
 
 
-def _valid_norepeat(n, fm, a, b):
-    """repeat=False is generated only where the pattern fits into [start, end) (the other case is C03's)."""
-    av = 0 if a is None else (a + n if a < 0 else a)
-    bv = n if b is None else (b + n if b < 0 else b)
-    if not 0 <= av <= bv <= n:
-        return True                                       # error case: same either way
-    if fm is None or fm == 0:
-        return True
-    if isinstance(fm, int):
-        sizes = [fm] if fm > 0 else None
-    elif isinstance(fm, str):
-        r = _byteswap_ref("0" * n, fm, a, b, True)
-        if r is None:
-            return True
-        sizes = []
-        for cnt, c in re.findall(r"(\d*)([A-Za-z])", fm.lstrip("<>=@")):
-            sizes += [STD[c][1]] * (int(cnt) if cnt else 1)
-    else:
-        sizes = fm if all(k >= 0 for k in fm) else None
-    if sizes is None:
-        return True
-    return av + 8 * sum(sizes) <= bv or sum(sizes) == 0
-
-
 def _fmt_wire(fm):
     if fm is None:
         return "None"
@@ -938,8 +907,6 @@ def gen_bswap(rng, big):
                     for _ in range(2 if big else 1):
                         bits = rand_bits(rng, n) if rng.random() < 0.7 else bits_of_bytes(bytes(range(1, nbytes + 1))) + "101"[:min(3, trail)] + "0" * max(0, trail - 3)
                         a, b = (None, None) if rng.random() < 0.5 else _window(rng, n)
-                        if not rep and not _valid_norepeat(n, fm, a, b):
-                            continue
                         yield SEP.join(["C18", "bswap", rng.choice(MUTABLE), wire(bits), _fmt_wire(fm), sv(a), sv(b), "1" if rep else "0"])
     for _ in range(20000 if big else 5000):
         n = rng.choice([8, 16, 24, 32, 40, 48, 56, 64, 64, 72, 80, 128]) + rng.choice([0, 0, 0, 1, 4, 7])
@@ -953,8 +920,6 @@ def gen_bswap(rng, big):
             fm = rng.choice(["", "<", ">", "=", "@"]) + "".join(_count_spelling(rng, rng.choice(CODES), rng.choice([1, 1, 2, 3])) for _ in range(rng.randint(1, 3)))
         a, b = _window(rng, n)
         rep = rng.random() < 0.7
-        if not rep and not _valid_norepeat(n, fm, a, b):
-            rep = True
         yield SEP.join(["C18", "bswap", rng.choice(MUTABLE), wire(bits), _fmt_wire(fm), sv(a), sv(b), "1" if rep else "0"])
     # malformed
     for bad in SWAP_BAD:
